@@ -105,6 +105,29 @@ pub fn install_panic_hook() {
             } else {
                 "panic".to_string()
             };
+            // A panic raised inside std / a dependency on behalf of repository code is attributed to
+            // the innermost repository frame (needs symbol names only, not debug info).
+            let mut loc = loc;
+            if !loc.starts_with("/repo/") && !loc.contains("/verif/") {
+                let bt = std::backtrace::Backtrace::force_capture().to_string();
+                let mut harness_first = false;
+                for line in bt.lines() {
+                    let l = line.trim();
+                    let Some((_, sym)) = l.split_once(": ") else { continue };
+                    if sym.starts_with("p2panda") || sym.starts_with("<p2panda") {
+                        let clean = strip_symbol_hash(sym).replace("::{{closure}}", "");
+                        loc = format!("{loc} in {clean}");
+                        break;
+                    }
+                    if sym.starts_with("p2sim") || sym.starts_with("simworld") || sym.starts_with("<p2sim") || sym.starts_with("<simworld") || (sym.starts_with("simcore") && !sym.contains("runner")) {
+                        harness_first = true;
+                        break;
+                    }
+                }
+                if harness_first {
+                    loc = format!("/verif/ (harness frame first) {loc}");
+                }
+            }
             *PANIC_INFO.lock().unwrap() = Some((loc, msg));
         } else if std::env::var("VERIF_QUIET_PANICS").is_err() {
             default(info);
@@ -112,8 +135,21 @@ pub fn install_panic_hook() {
     }));
 }
 
+fn strip_symbol_hash(sym: &str) -> &str {
+    if let Some(pos) = sym.rfind("::h") {
+        let tail = &sym[pos + 3..];
+        if tail.len() == 16 && tail.chars().all(|c| c.is_ascii_hexdigit()) {
+            return &sym[..pos];
+        }
+    }
+    sym
+}
+
 /// Strip the line number and directory noise from a panic location for use in a signature.
 fn panic_site(loc: &str) -> String {
+    if let Some((_, func)) = loc.split_once(" in ") {
+        return func.to_string();
+    }
     let file = loc.rsplit_once(':').map(|(f, _)| f).unwrap_or(loc);
     let file = file.strip_prefix("/repo/").unwrap_or(file);
     file.to_string()
